@@ -392,6 +392,8 @@ func (g *G) Block(depth int) []*Node {
 				r := &Node{Kind: KRender, Callee: fmt.Sprintf("L%d%s", g.R.Intn(g.layoutsAvail), Args)}
 				if g.R.Intn(3) > 0 {
 					r.Kids = g.Block(depth - 1)
+				} else if g.O.RenderHeavy && g.chance(3) {
+					r.Unescaped = true // the `!= @render` spelling (without a block: nothing in it to escape or not)
 				}
 				out = append(out, r)
 			}
@@ -400,7 +402,7 @@ func (g *G) Block(depth int) []*Node {
 		case 11:
 			if g.allowChildren {
 				g.usedChildren = true
-				out = append(out, &Node{Kind: KChildren})
+				out = append(out, &Node{Kind: KChildren, Unescaped: g.O.RenderHeavy && g.chance(4)})
 			}
 		case 12:
 			out = append(out, &Node{Kind: KDoctype})
@@ -494,8 +496,9 @@ func GenFile(r *rand.Rand, o Opts, nLayouts, nPages int) *File {
 			}
 			callee := fmt.Sprintf("L%d%s", k, Args)
 			p := func(s string) *Node { return &Node{Kind: KElem, Tag: "p", Inline: &Node{Kind: KText, Parts: []Part{{Static: s}}}} }
-			with := func(kids ...*Node) *Node { return &Node{Kind: KRender, Callee: callee, Kids: kids} }
-			without := func() *Node { return &Node{Kind: KRender, Callee: callee} }
+			// the blocks here are static, so the `!= @render` spelling cannot change what they print
+			with := func(kids ...*Node) *Node { return &Node{Kind: KRender, Callee: callee, Kids: kids, Unescaped: g.chance(3)} }
+			without := func() *Node { return &Node{Kind: KRender, Callee: callee, Unescaped: g.chance(3)} }
 			f.Templates = append(f.Templates, &Template{Name: fmt.Sprintf("Seq%d", k), Sig: Sig, Body: []*Node{
 				with(p("first block")), without(),
 				{Kind: KElem, Tag: "div", Kids: []*Node{with(with(p("inner")), without()), without()}},
